@@ -91,6 +91,7 @@ def generate(rng, tier: str, index: int) -> dict:
     if cell[0] in ('mp_reach',) and p['carrier'] == 'v4':
         p['carrier'] = 'mp6'
     p.update({'micro_seed': rng.randint(1, 1 << 48), 'knobs': knobs(rng), 'split_p': rng.choice([0.0, 0.3]), 'gap': rng.choice([0.02, 0.1])})
+    p['repeat'] = rng.choice([0, 0, 1, 2])
     return p
 
 
@@ -336,6 +337,9 @@ def execute(plan: dict) -> dict:
                 def now_bad() -> None:
                     if sess.state != 'closed':
                         sess.send(bad)
+                        # the very same corrupted bytes again (a peer re-sending; the decoder's attribute cache has seen them once)
+                        for j in range(plan.get('repeat', 0)):
+                            w.after(g * (j + 1) / (plan['repeat'] + 1), lambda: sess.send(bad) if sess.state != 'closed' else None)
                         w.after(g, lambda: sess.send(benign) if sess.state != 'closed' else None)
 
                 if other is not None:
@@ -410,6 +414,20 @@ def judge(w, plan, sp, ctx, h, good, bad, exp, stage, rib_keys, violations, prob
     if ev is None:
         violations.append(viol('C08/event-unparseable', f'{what}: {lines[1][:300]}', cell=cell))
         return
+    for j in range(plan.get('repeat', 0)):
+        # the same bytes sent again must get the same treatment (no outcome may depend on having been seen before)
+        if len(lines) < 2 + j + 1:
+            violations.append(viol('C08/not-reported', f'{what}: copy #{j + 2} of the same UPDATE produced no API event', cell=cell))
+            return
+        again = _safe_parse(lines[2 + j])
+        if again is None or (sorted(map(repr, again.get('announce', []))), sorted(map(repr, again.get('withdraw', []))), again.get('attrs')) != (sorted(map(repr, ev.get('announce', []))), sorted(map(repr, ev.get('withdraw', []))), ev.get('attrs')):
+            probes['repeat_differs'] = 1
+            ann2 = [n[:5] for n, _ in (again or {}).get('announce', [])]
+            if any(key in ann2 for key in exp['keys']) and exp['class'] != DISCARD:
+                violations.append(viol('C08/malformed-update-announced', f'{what}: copy #{j + 2} of the same corrupted UPDATE was announced ({str(lines[2 + j])[:200]}) although RFC 7606 asks for {SEV[exp["class"]]}', cell=cell, outcome='announced', required=SEV[exp['class']]))
+            else:
+                violations.append(viol('C08/outcome-depends-on-repetition', f'{what}: copy #{j + 2} of the same UPDATE is reported differently from the first: {str(lines[2 + j])[:200]} vs {str(lines[1])[:200]}', cell=cell))
+            return
     announced = [n[:5] for n, _ in ev.get('announce', [])]
     withdrawn = [n[:5] for n in ev.get('withdraw', [])]
     ann_keys = [key for key in exp['keys'] if key in announced]
@@ -464,7 +482,7 @@ def judge(w, plan, sp, ctx, h, good, bad, exp, stage, rib_keys, violations, prob
             violations.append(viol('C08/not-reported', f'{what}: the withdrawn route {key} of the same UPDATE was not reported', cell=cell))
             return
     # alive after: the benign UPDATE is reported
-    if not any('"198.18.0.1/32"' in ln for ln in lines[2:]):
+    if not any('"198.18.0.1/32"' in ln for ln in lines[2 + plan.get('repeat', 0):]):
         violations.append(viol('C08/wedged', f'{what}: the benign UPDATE sent afterwards was not reported', cell=cell))
 
 
@@ -494,7 +512,7 @@ def _kd(k: dict) -> str:
 
 
 def shrink_candidates(plan: dict):
-    for key, val in (('extra_attrs', False), ('with_withdraw', False), ('nprefix', 1), ('split_p', 0.0)):
+    for key, val in (('repeat', 0), ('extra_attrs', False), ('with_withdraw', False), ('nprefix', 1), ('split_p', 0.0)):
         if plan.get(key) != val:
             p = jclone(plan)
             p[key] = val
